@@ -136,7 +136,45 @@ def check_fb(case, obs):
                 if inn.shape[1] != width:
                     v('fb-innovation-width', '%s innovation has %d columns, expected %d'
                       % (NAMES[k], inn.shape[1], width))
+    # tail replay: after the last correction the filter is plain strapdown integration of the increments
+    # compensated with its (now constant) sensor estimates.  The rows from the corrected one on are reproduced
+    # with a fresh integrator started from the corrected row and the models' own public correct_increments.
+    if not viol and len(idx) == len(times):
+        tail = tail_replay(case, obs, max(ut) if ut else None)
+        if tail is not None:
+            obs['tail_tight'] = tail[0]
+            if tail[0] > 1.0:
+                v('fb-tail-not-plain-integration:' + tag, 'rows after the last correction (epoch %r) are not the strapdown '
+                  'integration of the increments compensated with the final sensor estimates: %s' % (max(ut) if ut else None, tail[1]))
     return viol
+
+
+TAIL_TOL = dict(lat=1e-13, lon=1e-13, alt=1e-8, VN=1e-10, VE=1e-10, VD=1e-10, roll=1e-11, pitch=1e-11, heading=1e-11)
+
+
+def tail_replay(case, obs, t_last):
+    from pyins import strapdown
+    times, inc, traj = obs['times'], obs['inc'], obs['res']['trajectory']
+    k = 0 if t_last is None else int(np.searchsorted(times, t_last, side='right')) - 1
+    if k < 0 or k >= len(times) - 1:
+        return None
+    rest = inc[inc.index > times[k]]
+    cor = rest.copy()
+    for mod, cols in ((obs.get('gm'), ['theta_x', 'theta_y', 'theta_z']), (obs.get('am'), ['dv_x', 'dv_y', 'dv_z'])):
+        if mod is not None:
+            cor[cols] = mod.correct_increments(rest['dt'], rest[cols])
+    integ = strapdown.Integrator(traj.iloc[k], case['wa'])
+    integ.integrate(cor)
+    got, exp = integ.trajectory, traj.iloc[k:]
+    worst, what = 0.0, ''
+    for c, tol in TAIL_TOL.items():
+        d = np.abs(got[c].values - exp[c].values)
+        if c in ('roll', 'heading'):
+            d = np.abs((got[c].values - exp[c].values + 180.0) % 360.0 - 180.0)
+        r = float(d.max() / tol)
+        if r > worst:
+            worst, what = r, '%s differs by %.3e (tol %.0e) from row %d on' % (c, d.max(), tol, k)
+    return worst, what
 
 
 def run_case(case):
@@ -150,7 +188,8 @@ def run_case(case):
     return dict(viol=viol, key=h.hexdigest()[:16],
                 nontrivial=(len(trace) >= 3 or in_span >= 1),
                 stats=dict(loop_iterations=len(trace), spy_calls=len(obs['log']),
-                           in_span_samples=in_span, monitor_degraded=int(obs['degraded'])),
+                           in_span_samples=in_span, monitor_degraded=int(obs['degraded']),
+                           tail_replays=int('tail_tight' in obs), max_tight_tail=float(obs.get('tail_tight', 0.0))),
                 trace=trace, cfg=[case['pattern'], case['n'], case['step']])
 
 
